@@ -130,11 +130,13 @@ AS_OTHER_ARMS = {
     "SetState": [("state", "ModuleState"), ("module", "AgentStatusModule"), ("response", "oneshot::Sender<ModuleState>")],
     "GetState": [("module", "AgentStatusModule"), ("response", "oneshot::Sender<ModuleState>")],
     "ClearAllSummary": [("response", "oneshot::Sender<()>")],
+    "GetAllConnectionSummary": [("response", "oneshot::Sender<Vec<ProxyConnectionSummary>>")],
+    "GetAllFailedConnectionSummary": [("response", "oneshot::Sender<Vec<ProxyConnectionSummary>>")],
     "GetConnectionCount": [("response", "oneshot::Sender<u128>")],
     "IncreaseConnectionCount": [("response", "oneshot::Sender<u128>")],
     "IncreaseTcpConnectionCount": [("response", "oneshot::Sender<u128>")],
 }
-AS_NOT_SLICED = {"GetAllConnectionSummary", "GetAllFailedConnectionSummary"}   # `for (_, v) in map.iter()`: outside the Verus subset   # not relied upon by C09/C10
+AS_NOT_SLICED = set()   # `for (_, v) in map.iter()`: outside the Verus subset   # not relied upon by C09/C10
 
 
 
@@ -235,6 +237,8 @@ def build(u):
     with u.mod("proxy_agent_shared"):
         with u.mod("proxy_agent_aggregate_status"):
             u.take(ags, "ProxyConnectionSummary", "struct")
+            with u.impl_(ags, "<ProxyConnectionSummary as Clone>"):
+                u.take_fn(ags, "<ProxyConnectionSummary as Clone>::clone", make_pub=False)
             u.take(ags, "ModuleState", "enum", keep_derive=("Clone", "Debug"))
     with u.mod("key_keeper"):
         with u.mod("key", uses="use std::collections::HashMap;"):
@@ -430,7 +434,8 @@ use vstd::std_specs::hash::*;"""
             gname = "vx_arm_status_" + re.sub(r"(?<!^)([A-Z])", r"_\1", variant).lower()
             u.slice_fn(asw, FN, gname, lo, hi,
                        ", ".join(["%s_0: %s" % (n, t) for (n, t) in AS_LOCALS] + ["%s: %s" % (f, t) for (f, t) in fields]),
-                       pre_body="broadcast use axiom_to_string_string, axiom_string_ext;\n" + "".join("let mut %s = %s_0;\n" % (n, n) for (n, _t) in AS_LOCALS),
+                       contract="\n        requires obeys_key_model::<String>(),   // vstd's HashMap model applies to String keys (as for the two summary arms)\n",
+                       pre_body="broadcast use vstd::std_specs::hash::group_hash_axioms, axiom_to_string_string, axiom_string_ext;\n" + "".join("let mut %s = %s_0;\n" % (n, n) for (n, _t) in AS_LOCALS),
                        what="(actor arm AgentStatusAction::%s, panic-freedom)" % variant)
             u.auto_props[gname] = "C13"
 
